@@ -23,7 +23,18 @@ class Ref:
         return r if r else (p, stk)
 
     def ev(self, n, s, p, stk, inh):
-        """returns (pos, stack) or None; positions are character indices into the python string"""
+        """returns (pos, stack) or None; positions are character indices into the python string.
+        While a repetition is being watched (run_rule_items) a term that does not match contributes nothing to the value:
+        whatever was recorded inside it is forgotten."""
+        if self.watch is None:
+            return self._ev(n, s, p, stk, inh)
+        t0 = self.trace
+        r = self._ev(n, s, p, stk, inh)
+        if r is None:
+            self.trace = t0
+        return r
+
+    def _ev(self, n, s, p, stk, inh):
         k = n[0]
         if k == "str":
             return (p + len(n[1]), stk) if s.startswith(n[1], p) else None
